@@ -27,6 +27,7 @@ struct nv_future nv_fut_g, nv_fut_other;   /* what an iterator dereference refer
 
 /* ---- std::vector<future_t>: assumed contracts ------------------------------------------------------------------------ */
 static struct nv_fit nv_fit_begin(const struct nv_section* v) { struct nv_fit it; it.v = (struct nv_section*)v; it.i = 0; return it; }
+static struct nv_fit nv_fit_plus(struct nv_fit it, int64_t n) { it.i = it.i + (uint64_t)n; return it; }                 /* it + n */
 static struct nv_fit nv_fit_end(const struct nv_section* v) { struct nv_fit it; it.v = (struct nv_section*)v; it.i = v->size; return it; }
 static struct nv_future* nv_future_at(struct nv_section* v, uint64_t i)       /* *it, it = v.begin() + i */
 {
@@ -104,16 +105,16 @@ __CPROVER_ensures((NV_BLK_E && nv_g_valid && NV_BLK_RAISE && !nv_thrown) ==> nv_
 __CPROVER_ensures((NV_BLK_E && nv_g_valid && NV_BLK_RAISE && nv_g_exc && nv_thrown) ==> (uint64_t)(nv_thrower - __CPROVER_old(NV_BLK_SELF->first_id)) <= (uint64_t)(nv_gid - __CPROVER_old(NV_BLK_SELF->first_id))) \
 __CPROVER_ensures(__CPROVER_old(nv_g_seen) ==> nv_g_seen) \
 __CPROVER_ensures(!nv_thrown ==> nv_visits == __CPROVER_old(NV_BLK_SELF->size))
-/* the range-based for of block, whatever vector of futures it runs over (`*this` or a local one: __range1) */
-#define NV_IT __begin1
-#define NV_END __end1
-#define NV_RANGE __range1
+/* the loop of block over a vector of futures, whatever vector it runs over (`*this` or a local one) and however it is written
+ * (range-based for, explicit iterator for / while): only the iterator variable is named, by its role (NV_LOOPVAR, engine) */
+#define NV_IT NV_LOOPVAR_section_block_1
+#define NV_RANGE NV_IT.v
 #define NV_LOOP_section_block_1 \
 __CPROVER_assigns(NV_IT.i, NV_BLOCK_GHOSTS) \
-__CPROVER_loop_invariant(NV_IT.i <= NV_END.i && NV_END.i == NV_RANGE->size && NV_IT.v == NV_RANGE && nv_visits == NV_IT.i && !nv_thrown) \
+__CPROVER_loop_invariant(NV_IT.i <= NV_RANGE->size && nv_visits == NV_IT.i && !nv_thrown) \
 __CPROVER_loop_invariant((NV_HOLDS_V(NV_RANGE) && (uint64_t)(nv_gid - NV_RANGE->first_id) < NV_IT.i && nv_g_valid) ==> (nv_g_seen && (NV_BLK_RAISE ==> (nv_g_got && !nv_g_exc)))) \
 __CPROVER_loop_invariant(__CPROVER_loop_entry(nv_g_seen) ==> nv_g_seen) \
-__CPROVER_decreases(NV_END.i - NV_IT.i)
+__CPROVER_decreases(NV_RANGE->size - NV_IT.i)
 
 /* ---- contract of section_t::~section_t(): never throws; every valid future the section holds has been waited for ------ */
 #define NV_DT_SELF NV_ARG_section_dtor_0
